@@ -12,7 +12,7 @@
 //   idx  big + unique hash index on id (TryAdd / TryInsert / TryUpdate can FAIL and leave the row detached)
 //   keep DataSettings<true> (row number stored in the raw)    pool DataTraits with MemPoolParams<2, 3> (2 blocks per buffer, cache 3)
 //   stat DataColumnListStatic<struct{char}> (Raw = the struct, 1 byte)
-// ops:  n NewRow   q<k> NewRow(copy of detached #k)   e NewRow whose item assignment throws   a<k> TryAdd   i<i>,<k> TryInsert
+// ops:  n NewRow   q<k> NewRow(copy of detached #k)   e NewRow whose item assignment throws   f<k> NewRow(copy of #k) whose item copy throws   a<k> TryAdd   i<i>,<k> TryInsert
 //       p<i>,<k> TryUpdate(row i := detached #k)   x<i> Extract(i)   z<i> Extract(i, keepRowOrder=false)   r<i> Remove   c Clear
 //       d<k> destroy detached #k   m<k> move-construct + move-assign into the moved-from object   w<k>,<j> #k = move(#j) (old #k dies)
 //       y<k>,<j> swap   s<k> rewrite items   v move the TABLE into another object and back
@@ -50,7 +50,7 @@ struct Tracked
 	std::string payload;
 	Tracked() : payload("a string long enough to live on the heap, not in the SSO buffer") { ++live; ++ctors; }
 	explicit Tracked(const char* s) : payload(s) { ++live; ++ctors; }
-	Tracked(const Tracked& t) : payload(t.payload) { ++live; ++ctors; }
+	Tracked(const Tracked& t) : payload(t.payload) { if (payload == "poison2") throw std::runtime_error("poison2"); ++live; ++ctors; }
 	Tracked(Tracked&& t) noexcept : payload(std::move(t.payload)) { ++live; ++ctors; }
 	Tracked& operator=(const Tracked& t) { if (t.payload == "poison") throw std::runtime_error("poison"); payload = t.payload; return *this; }
 	~Tracked() { --live; ++dtors; }
@@ -118,6 +118,14 @@ struct Dyn      // the dynamic column list; the column set is chosen at run time
 		try { Row r = t.NewRow(colT = Tracked("poison")); (void)r; } catch (const std::runtime_error&) { return true; }
 		return false;
 	}
+	static bool throwingCopy(Table& t, Row& src)     // NewRow(const Row&): the item COPY throws inside pvCreateRaw's rawCreator
+	{
+		if (!tracked()) return false;
+		bool thrown = false; std::string keep = src[colT].payload; src[colT].payload = "poison2";
+		try { Row r = t.NewRow(src); (void)r; } catch (const std::runtime_error&) { thrown = true; }
+		src[colT].payload = keep;
+		return thrown;
+	}
 	static size_t rowSize(const Table& t) { return t.GetColumnList().GetTotalSize(); }
 };
 int Dyn::variant = 0;
@@ -133,6 +141,7 @@ struct Keep     // the row number is kept inside the raw
 	static void fill(Row& row, size_t n) { row[colB] = uint8_t(n); }
 	static void rewrite(Row& row, size_t k) { row[colB] = uint8_t(0x5A + k); }
 	static bool throwingNew(Table&) { return false; }
+	template<typename R> static bool throwingCopy(Table&, R&) { return false; }
 	static size_t rowSize(const Table& t) { return t.GetColumnList().GetTotalSize(); }
 };
 MOMO_STATIC_ASSERT(!Dyn::ColumnList::Settings::keepRowNumber);
@@ -149,6 +158,7 @@ struct Pool     // tiny pool buffers (2 blocks) with a cache of 3 free blocks: b
 	static void fill(Row& row, size_t n) { row[colH] = int16_t(n); }
 	static void rewrite(Row& row, size_t k) { row[colH] = int16_t(-7 - (int)k); }
 	static bool throwingNew(Table&) { return false; }
+	template<typename R> static bool throwingCopy(Table&, R&) { return false; }
 	static size_t rowSize(const Table& t) { return t.GetColumnList().GetTotalSize(); }
 };
 MOMO_STATIC_ASSERT(Dyn::Table::RawMemPool::Params::blockCount == 32);
@@ -166,6 +176,7 @@ struct Stat     // static column list: Raw is the struct itself, one byte long
 	static void fill(Row& row, size_t n) { row[c] = char('a' + n % 26); }
 	static void rewrite(Row& row, size_t k) { row[c] = char('A' + k % 26); }
 	static bool throwingNew(Table&) { return false; }
+	template<typename R> static bool throwingCopy(Table&, R&) { return false; }
 	static size_t rowSize(const Table&) { return sizeof(OneChar); }
 };
 
@@ -242,6 +253,11 @@ static void runSeq(std::istringstream& is, const char* cfgName)
 			{
 				bool thrown = Cfg::throwingNew(table); if (thrown) ++created;
 				emit(thrown ? "Z" : "-");      // allocated (after a drain), failed, deallocated directly
+			}
+			else if (c == 'f' && !det.empty())
+			{
+				bool thrown = Cfg::throwingCopy(table, det[k % det.size()]); if (thrown) ++created;
+				emit(thrown ? "Z" : "-");      // pvCreateRaw's catch: mRawMemPool.Deallocate(raw)
 			}
 			else if ((c == 'a' || c == 'i') && !det.empty())
 			{
